@@ -13,7 +13,7 @@ verus! {
 global size_of usize == 8;
 pub struct NpoTypeId { pub _p: () }
 impl Clone for NpoTypeId { #[verifier::external_body] fn clone(&self) -> (r: Self) { unimplemented!() } }
-pub enum ProofMetadataError { ZeroRowCount, ZeroLanes(&'static str), ZeroNpoLanes(NpoTypeId), BadMinTraceHeight(usize), BadHornerPackedSteps(usize), Other }
+pub enum ProofMetadataError { ZeroRowCount, ZeroLanes(&'static str), ZeroNpoLanes(NpoTypeId), BadMinTraceHeight(usize), BadHornerPackedSteps(usize), UnsupportedExtDegree(usize), Other }
 pub const NUM_PRIMITIVE_TABLES: usize = 3;   // PrimitiveTable::{Const, Public, Alu}
 pub open spec fn is_pow2(n: nat) -> bool decreases n { n == 1 || (n > 1 && n % 2 == 0 && is_pow2(n / 2)) }
 #[verifier::external_body]
@@ -124,6 +124,31 @@ def build():
     u.emit(rv)
     u.text('}\n}')
 
+
+    # ------------------------------------------------------------------ NonPrimitiveTableEntry::validate, BatchStarkProof::validate
+    u.text('''verus! {
+/// the fields of NonPrimitiveTableEntry / BatchStarkProof that `validate` reads
+pub struct NonPrimitiveTableEntry { pub op_type: NpoTypeId, pub lanes: usize }
+pub struct BatchStarkProof { pub ext_degree: usize, pub rows: RowCounts, pub table_packing: TablePacking, pub non_primitives: Vec<NonPrimitiveTableEntry> }
+pub open spec fn supported_ext_degree(d: usize) -> bool { d == 1 || d == 2 || d == 4 || d == 5 || d == 6 || d == 8 }
+impl RowCounts { #[verifier::external_body] pub fn validate_(&self) -> (r: Result<(), ProofMetadataError>) ensures r is Ok <==> self.wf() { unimplemented!() } }
+impl TablePacking { #[verifier::external_body] pub fn validate_(&self) -> (r: Result<(), ProofMetadataError>) ensures r is Ok <==> self.wf() { unimplemented!() } }
+}''')
+    ev = u.extract(B, r'impl<SC: StarkGenericConfig> NonPrimitiveTableEntry<SC>', 'validate', 'NonPrimitiveTableEntry::validate')
+    ev.ensures('ok_iff_lanes_non_zero', 'ret is Ok <==> self.lanes > 0')
+    bv = u.extract(B, r'impl<SC> BatchStarkProof<SC>', 'validate', 'BatchStarkProof::validate')
+    bv.rewrite_re('R11', r'self\.rows\.validate\(\)', 'self.rows.validate_()', min_count=0)
+    bv.rewrite_re('R11', r'self\.table_packing\.validate\(\)', 'self.table_packing.validate_()', min_count=0)
+    bv.rewrite_re('R5', r'for (\w+) in &self\.non_primitives \{', r'for np_ in 0..self.non_primitives.len() { let \1 = &self.non_primitives[np_];', min_count=0)
+    bv.ensures('ok_iff_every_structural_invariant_holds', '''ret is Ok <==> (supported_ext_degree(self.ext_degree) && self.rows.wf() && self.table_packing.wf()
+            && forall|i: int| 0 <= i < self.non_primitives@.len() ==> (#[trigger] self.non_primitives@[i]).lanes > 0)''')
+    if 'for np_ in 0..self.non_primitives.len()' in bv.body:
+        bv.loop('for np_ in 0..self.non_primitives.len()', invariants=[('checked', 'forall|i: int| 0 <= i < np_ ==> (#[trigger] self.non_primitives@[i]).lanes > 0')])
+    u.text('verus! {\nimpl NonPrimitiveTableEntry {')
+    u.emit(ev)
+    u.text('}\nimpl BatchStarkProof {')
+    u.emit(bv)
+    u.text('}\n}')
     va = u.extract(B, r'impl<SC> BatchStarkProver<SC>', 'verify_all_tables', 'BatchStarkProver::verify_all_tables[metadata prefix]')
     va.set_sig('R11', 'fn verify_all_tables(&self, proof: &BatchStarkProofMeta) -> Result<Option<BaseVal>, BatchStarkProverError>')
     va.truncate_after('let common = &proof.stark_common;', 'Ok(expected_w)', 'suffix dispatches to verify::<D>(proof, expected_w, common) with the VERIFIER-derived w')
